@@ -56,7 +56,7 @@ def generate(rng, tier, index):
     triples = gen.retype(gen.ensure_class(triples), tp)
     family = "store" if rng.random() < 0.5 else "document"
     target = gen.gen_target(rng, triples, allow_shape_map=False, type_prop=tp)
-    if family == "document" and not bn and rng.random() < 0.15:
+    if family == "document" and not bn and rng.random() < 0.3:
         # plain node selectors (no query is evaluated); some selected nodes only ever occur as objects, so their
         # shape ends up empty and is removed together with the constraints that point to it
         subs = sorted({t[0][1] for t in triples if t[0][0] == "i"})
@@ -329,6 +329,20 @@ def extra_scenarios(tier, base):
             c["orders"] = [[a, b] for a in p4 for b in p4]
             c["exhaustive_block"] = [0, len(c["orders"])]
             out.append(("exh-store-%d" % gi, c))
+    # all orders of a graph whose selected nodes point, through three equally frequent properties, to nodes of a shape that
+    # ends up empty and is removed together with every constraint that mentions it
+    g = []
+    for a in ("a1", "a2"):
+        g.append((gen.iri(gen.EX + a), gen.iri(gen.EX + "p1"), gen.iri(gen.EX + "b1")))
+        g.append((gen.iri(gen.EX + a), gen.iri(gen.EX + "p2"), gen.iri(gen.EX + "b2")))
+        g.append((gen.iri(gen.EX + a), gen.iri(gen.EX + "p3"), gen.lit("v", gen.XSD + "string")))
+    perms = [list(p) for p in itertools.permutations(range(len(g)))]
+    sm = "\n".join(["<%s%s>@<http://sh.org/A>" % (gen.EX, x) for x in ("a1", "a2")] + ["<%s%s>@<http://sh.org/B>" % (gen.EX, x) for x in ("b1", "b2")])
+    for ci in range(0, len(perms), 240):
+        out.append(("exh-emptied-%d" % ci, {
+            "family": "document", "format": "nt", "schema": False, "ttl_prefixed": None, "graph": gen.L(g),
+            "target": {"shape_map_raw": sm}, "options": {"instances_report_mode": "mixed"}, "ns": dict(gen.BASE_NS),
+            "relabel": {}, "orders": [[p, p] for p in perms[ci:ci + 240]], "exhaustive_block": [ci, len(perms)]}))
     return out
 
 
